@@ -2,6 +2,7 @@ package main
 
 import (
 	"fmt"
+	"regexp"
 	"strings"
 
 	"github.com/jsightapi/jsight-api-go-library/core"
@@ -90,4 +91,213 @@ func runC13(ctx *Ctx) {
 	c13Docs(ctx, r)
 }
 
-func c13Docs(ctx *Ctx, r *Rng) {}
+
+// ---- path trees: documents with {parameters}, Path directives under URL or method, expected binding
+
+type pathRes struct {
+	path   string   // full path, e.g. /a/{x}/b/{y}
+	url    bool     // rendered as a URL block (else a path-bearing method)
+	decl   []string // parameter names this resource's Path directive declares (subset of the parameters of its path)
+	values map[string]string
+}
+
+func pathTreeDoc(r *Rng) ([]pathRes, string) {
+	// a small forest of path templates with shared prefixes
+	bases := []string{"a", "b", "c"}
+	params := []string{"x", "y", "z", "id"}
+	var paths []string
+	n := 2 + r.Intn(4)
+	seen := map[string]bool{}
+	shapeName := map[string]string{} // shape of the prefix before a parameter -> the parameter name used there
+	for len(paths) < n {
+		depth := 1 + r.Intn(3)
+		p := ""
+		used := map[string]bool{}
+		ok := true
+		for d := 0; d < depth; d++ {
+			p += "/" + bases[r.Intn(len(bases))]
+			if r.Chance(2, 3) {
+				shape := regexpBraces.ReplaceAllString(p, "{}")
+				nm, fixed := shapeName[shape]
+				if !fixed {
+					nm = params[r.Intn(len(params))]
+				}
+				if used[nm] {
+					if fixed {
+						ok = false
+					}
+					continue
+				}
+				shapeName[shape] = nm
+				used[nm] = true
+				p += "/{" + nm + "}"
+			}
+		}
+		shape := regexpBraces.ReplaceAllString(p, "{}")
+		if !ok || seen[shape] {
+			continue
+		}
+		seen[shape] = true
+		paths = append(paths, p)
+	}
+	declared := map[string]bool{} // "prefix|name"
+	var res []pathRes
+	for _, p := range paths {
+		pr := pathRes{path: p, url: r.Bool(), values: map[string]string{}}
+		segs := strings.Split(strings.Trim(p, "/"), "/")
+		for i, sg := range segs {
+			if strings.HasPrefix(sg, "{") {
+				name := sg[1 : len(sg)-1]
+				key := strings.Join(segs[:i+1], "/") + "|" + name
+				if !declared[key] && r.Chance(1, 2) {
+					declared[key] = true
+					pr.decl = append(pr.decl, name)
+					pr.values[name] = fmt.Sprint(100 + r.Intn(900))
+				}
+			}
+		}
+		res = append(res, pr)
+	}
+	return res, renderPathTree(res, nil)
+}
+
+var regexpBraces = regexp.MustCompile(`\{[^}]*\}`)
+
+func renderPathTree(res []pathRes, extraPathBody map[int]string) string {
+	var b strings.Builder
+	b.WriteString("JSIGHT 0.3\n")
+	for i, pr := range res {
+		body := ""
+		if len(pr.decl) > 0 {
+			var pp []string
+			for _, n := range pr.decl {
+				pp = append(pp, fmt.Sprintf("%q: %s", n, pr.values[n]))
+			}
+			body = "{" + strings.Join(pp, ", ") + "}"
+		}
+		if x, ok := extraPathBody[i]; ok {
+			body = x
+		}
+		if pr.url {
+			b.WriteString("URL " + pr.path + "\n")
+			if body != "" {
+				b.WriteString("  Path\n  " + body + "\n")
+			}
+			b.WriteString("  GET\n    200 any\n")
+		} else {
+			b.WriteString("GET " + pr.path + "\n")
+			if body != "" {
+				b.WriteString("  Path\n  " + body + "\n")
+			}
+			b.WriteString("  200 any\n")
+		}
+	}
+	return b.String()
+}
+
+// expectedPathVars: for every interaction the (name, value) pairs its pathVariables must list, in path order.
+func expectedPathVars(res []pathRes) map[string][][2]string {
+	decl := map[string]string{} // prefix|name -> value
+	for _, pr := range res {
+		segs := strings.Split(strings.Trim(pr.path, "/"), "/")
+		for i, sg := range segs {
+			if strings.HasPrefix(sg, "{") {
+				name := sg[1 : len(sg)-1]
+				for _, d := range pr.decl {
+					if d == name {
+						decl[strings.Join(segs[:i+1], "/")+"|"+name] = pr.values[name]
+					}
+				}
+			}
+		}
+	}
+	out := map[string][][2]string{}
+	for _, pr := range res {
+		segs := strings.Split(strings.Trim(pr.path, "/"), "/")
+		var vv [][2]string
+		for i, sg := range segs {
+			if strings.HasPrefix(sg, "{") {
+				name := sg[1 : len(sg)-1]
+				if v, ok := decl[strings.Join(segs[:i+1], "/")+"|"+name]; ok {
+					vv = append(vv, [2]string{name, v})
+				}
+			}
+		}
+		out["http GET "+pr.path] = vv
+	}
+	return out
+}
+
+func c13Docs(ctx *Ctx, r *Rng) {
+	n := ctx.Budget(1500, 100000)
+	cases := 0
+	for i := 0; i < n && len(ctx.Violations) < 10; i++ {
+		res, doc := pathTreeDoc(r)
+		run := RunProject(SingleFile([]byte(doc)), false)
+		cases++
+		ctx.Cov.Count([]byte(doc), strings.Contains(doc, "{"))
+		in := projectInput(SingleFile([]byte(doc)))
+		in["op"] = "doc"
+		if i < 1 {
+			ctx.Cov.Sample(map[string]any{"document": doc, "verdict": run.Verdict()})
+		}
+		if !run.Accepted() {
+			ctx.Violate(Violation{Kind: "wrong-output", Site: "path variables", What: "a well-formed path tree is not accepted: " + run.Verdict(), Input: in, Signature: "pathtree-rejected:" + firstWords(run.Verdict(), 4)})
+			continue
+		}
+		v, _, err := ParseOJSON(run.JSON)
+		if err != nil {
+			continue
+		}
+		for id, want := range expectedPathVars(res) {
+			it := v.Path("interactions", id)
+			var got [][2]string
+			for _, c := range it.Path("pathVariables", "schema", "content", "children").Items() {
+				got = append(got, [2]string{c.Get("key").Str(), c.Get("scalarValue").Str()})
+			}
+			if fmt.Sprint(got) != fmt.Sprint(want) {
+				ctx.Violate(Violation{Kind: "wrong-output", Site: "path variables", What: fmt.Sprintf("%s: pathVariables %v, the document declares %v", id, got, want), Input: in, Observed: fmt.Sprint(got), Expected: fmt.Sprint(want), Signature: "pathvars-binding"})
+				break
+			}
+		}
+		// faulty variants: each must be rejected
+		type fv struct {
+			kind string
+			doc  string
+		}
+		var faults []fv
+		for k, pr := range res {
+			if strings.Contains(pr.path, "{") {
+				faults = append(faults, fv{"Path property matching no segment", renderPathTree(res, map[int]string{k: `{"nosuchparam": 1}`})})
+				faults = append(faults, fv{"Path body that is not a flat object", renderPathTree(res, map[int]string{k: `[1, 2]`})})
+				// a parameter declared twice for one prefix: another resource under the same prefix re-declares it
+				segs := strings.Split(strings.Trim(pr.path, "/"), "/")
+				for si, sg := range segs {
+					if strings.HasPrefix(sg, "{") && len(pr.decl) > 0 && pr.decl[0] == sg[1:len(sg)-1] {
+						prefix := "/" + strings.Join(segs[:si+1], "/")
+						extra := []pathRes{
+							{path: prefix + "/dup1", decl: []string{pr.decl[0]}, values: map[string]string{pr.decl[0]: "7"}},
+							{path: prefix + "/dup2/{q}", decl: []string{pr.decl[0], "q"}, values: map[string]string{pr.decl[0]: "7", "q": "8"}},
+						}
+						for _, e := range extra {
+							faults = append(faults, fv{"parameter declared twice for one prefix", renderPathTree(append(append([]pathRes{}, res...), e), nil)})
+						}
+						break
+					}
+				}
+			}
+		}
+		faults = append(faults, fv{"empty {} in a path", doc + "GET /e/{}\n  200 any\n"}, fv{"repeated {name} in one path", doc + "GET /r/{k}/s/{k}\n  200 any\n"})
+		for _, f := range faults {
+			fr := RunProject(SingleFile([]byte(f.doc)), false)
+			cases++
+			ctx.Cov.Hit("fault: " + f.kind)
+			if fr.Accepted() {
+				fin := projectInput(SingleFile([]byte(f.doc)))
+				fin["op"] = "doc"
+				ctx.Violate(Violation{Kind: "wrong-output", Site: "path variables", What: "a document with the fault '" + f.kind + "' is accepted", Input: fin, Observed: "accepted", Expected: "rejected", Signature: "pathfault-accepted:" + f.kind})
+			}
+		}
+	}
+	ctx.Cov.Component("path trees: binding of declared parameters and rejection of faulty variants (specification on the implementation)", cases, len(ctx.Violations), "")
+}
